@@ -115,6 +115,10 @@ func (p *proc) exchange(batch []*Case, guard time.Duration) (rs []*result, attri
 			for _, r := range rs {
 				r.died, r.stderr = true, stderr
 			}
+			if i := strings.LastIndex(stderr, "c08net worker:"); i >= 0 && msg == "" {
+				// the worker itself gave up (bad input, node did not start): never a verdict
+				core.Fatal("c08net: %s", strings.TrimSpace(stderr[i:]))
+			}
 			if len(batch) > 1 {
 				return rs, false
 			}
@@ -135,8 +139,8 @@ func (p *proc) exchange(batch []*Case, guard time.Duration) (rs []*result, attri
 			}
 			return rs, true
 		}
-		var os []*Outcome
-		if e := json.Unmarshal(x.line, &os); e != nil || len(os) != len(batch) {
+		var outs []*Outcome
+		if e := json.Unmarshal(x.line, &outs); e != nil || len(outs) != len(batch) {
 			for _, r := range rs {
 				r.died, r.stderr = true, "unparsable worker answer: "+string(x.line)
 			}
@@ -144,7 +148,7 @@ func (p *proc) exchange(batch []*Case, guard time.Duration) (rs []*result, attri
 			return rs, len(batch) == 1
 		}
 		for i, r := range rs {
-			r.o = os[i]
+			r.o = outs[i]
 		}
 		return rs, true
 	case <-time.After(guard):
@@ -325,7 +329,7 @@ func sigKey(m map[string]string) string {
 	return b.String()
 }
 
-const batchSize = 4
+const batchSize = 6
 
 func guardFor(c *Case) time.Duration {
 	return 3*caseDeadline + 15*time.Second
@@ -382,6 +386,17 @@ func Run(run *core.Run) core.Coverage {
 		core.Fatal("c08net: %v", err)
 	}
 	cases := buildCases(es, run.Quick())
+	if f := os.Getenv("VERIF_C08NET_ONLY"); f != "" { // debugging aid: restrict to the cases whose key matches
+		re := regexp.MustCompile(f)
+		var sel []*Case
+		for _, c := range cases {
+			if re.MatchString(c.Key) {
+				sel = append(sel, c)
+			}
+		}
+		cases = sel
+		run.Notes = append(run.Notes, "c08net: restricted by VERIF_C08NET_ONLY="+f)
+	}
 	budget := run.Pick(70, 720)
 	if v, err := strconv.Atoi(os.Getenv("VERIF_C08NET_BUDGET")); err == nil && v > 0 {
 		budget = v // seconds; for measurements on an overloaded machine
@@ -390,7 +405,7 @@ func Run(run *core.Run) core.Coverage {
 
 	// work units: structured cases run one per node at a time (process deaths are
 	// frequent there and must be attributable); byte-level cases, where a death is
-	// rare, run four at a time against one node, each with its own attacker, and a
+	// rare, run six at a time against one node, each with its own attacker, and a
 	// batch whose process dies is re-run case by case
 	var queue [][]*Case
 	var pend []*Case
@@ -491,7 +506,7 @@ func Run(run *core.Run) core.Coverage {
 	samples := core.NewSampler(8, run.Seed)
 	cands := map[string]*candidate{}
 	var order []string
-	gossipEvidence := 0
+	gossipEvidence, lateCases, retriedLate := 0, 0, 0
 	var retry []*Case
 	addCand := func(kind string, sig map[string]string, r *result) {
 		k := sigKey(sig)
@@ -502,9 +517,7 @@ func Run(run *core.Run) core.Coverage {
 			order = append(order, k)
 		}
 		cd.count++
-		if len(cd.cases) < 3 {
-			cd.cases = append(cd.cases, r.c)
-		}
+		cd.cases = append(cd.cases, r.c)
 	}
 	for _, r := range results {
 		byType[r.c.Type]++
@@ -532,9 +545,26 @@ func Run(run *core.Run) core.Coverage {
 		hist[res]++
 		classes.Add(r.c.Type + "|" + r.c.Class + "|" + r.c.Mode + "|" + res)
 		if res != "attacker-still-connected" {
-			reactions.Add(fmt.Sprintf("%s %s=%s (%s, %s): %s", r.c.Type, r.c.Field, r.c.Val, r.c.Family, r.c.Mode, res))
+			why := ""
+			if res == "inconclusive" {
+				switch {
+				case r.timedOut:
+					why = " [worker guard expired]"
+				case r.died:
+					why = " [worker died without a panic attributable to the case]"
+				case r.o != nil:
+					why = " [" + r.o.Class + ": " + r.o.Detail + "]"
+				}
+			}
+			reactions.Add(fmt.Sprintf("%s %s=%s (%s, %s): %s%s", r.c.Type, r.c.Field, r.c.Val, r.c.Family, r.c.Mode, res, why))
 		}
 		if r.o != nil {
+			if r.o.Late {
+				lateCases++
+			}
+			if r.o.Attempts > 1 {
+				retriedLate++
+			}
 			if r.o.PRS != "" {
 				prsShapes.Add(r.o.PRS)
 			}
@@ -591,7 +621,17 @@ func Run(run *core.Run) core.Coverage {
 	}
 	reported, unconfirmed := 0, []string{}
 	confirmRuns := 0
-	for round := 0; round < 2; round++ {
+	// representatives: the modes whose timing does not matter first (behind: the
+	// claimed height is already stored; ahead: a whole height of margin), live last
+	modeRank := map[string]int{"behind": 0, "ahead": 1, "live": 2}
+	for _, k := range order {
+		cs := cands[k].cases
+		sort.SliceStable(cs, func(i, j int) bool { return modeRank[cs[i].Mode] < modeRank[cs[j].Mode] })
+		if len(cs) > 3 {
+			cands[k].cases = cs[:3]
+		}
+	}
+	for round := 0; round < 3; round++ {
 		jobs = nil
 		for _, k := range order {
 			cd := cands[k]
@@ -678,6 +718,27 @@ func Run(run *core.Run) core.Coverage {
 			}
 		}
 	}
+	// ---- observation outside the property's quantifier (nothing is sent on a channel):
+	// the attacker's NodeInfo.ListenAddr of the node-info handshake, which PEXReactor.AddPeer parses
+	handshake := []string{}
+	if !run.Quick() {
+		var js []*job
+		for i, la := range []string{"127.0.0.1:1", "", ":", "127.0.0.1", "127.0.0.1:99999"} {
+			js = append(js, &job{c: &Case{ID: 900000 + i, Key: "handshake/ListenAddr", Family: "handshake", Type: "NodeInfo", Field: "NodeInfo.ListenAddr", Class: "NodeInfo.ListenAddr", Val: la, Mode: "live"}})
+		}
+		runJobs(js, 1)
+		for _, j := range js {
+			r := j.out[0]
+			switch {
+			case r.died && r.panicMsg != "":
+				handshake = append(handshake, fmt.Sprintf("ListenAddr=%q: the node process dies: %s in %s (goroutine %s)", j.c.Val, r.panicMsg, r.site, r.routine))
+			case r.o != nil:
+				handshake = append(handshake, fmt.Sprintf("ListenAddr=%q: %s, %d blocks afterwards, attacker dropped=%v", j.c.Val, r.o.Class, r.o.Blocks, r.o.Disconnected))
+			default:
+				handshake = append(handshake, fmt.Sprintf("ListenAddr=%q: inconclusive", j.c.Val))
+			}
+		}
+	}
 	if len(unconfirmed) > 0 {
 		run.Notes = append(run.Notes, fmt.Sprintf("c08net: candidate classes that did not reproduce 5/5 alone (not reported): %v", unconfirmed))
 	}
@@ -699,6 +760,9 @@ func Run(run *core.Run) core.Coverage {
 		"candidate_classes_confirmed_5_of_5":                   reported,
 		"confirmation_runs":                                    confirmRuns,
 		"inconclusive_after_rerun":                             stillInconclusive,
+		"handshake_observations_outside_the_quantifier":        handshake,
+		"cases_redone_because_the_script_arrived_after_the_addressed_height": retriedLate,
+		"cases_still_late_after_4_attempts":                    lateCases,
 		"cases_cut_by_deadline":                                cut,
 		"batches_rerun_case_by_case_after_a_death":             batchDeaths,
 		"exhaustive":                                           cut == 0 && stillInconclusive == 0,
